@@ -93,6 +93,13 @@ def handle (prop : String) (line : String) : String :=
       | "buildafterx" => opBuild prop args res
       | "classify" => opClassify args res
       | "build" => opBuild prop args res
+      | "buildbig" =>
+        -- `<run byte> <len> <tail byte|-> <ecl|->`: the payload is `len` copies of one byte (+ one last byte), all else automatic
+        (match args with
+         | [run, len, tail, e] =>
+           let hx := String.join (List.replicate len.toNat! run) ++ (if tail == "-" then "" else tail)
+           opBuild prop [if hx.isEmpty then "-" else hx, e, "-", "-", "-"] res
+         | _ => { spec := some "bad-args" })
       | "buildx" =>
         -- malformed stream (outside C10's quantifier): only the model's outcome class is compared
         { (opBuild "C10" args res) with spec := none }
